@@ -28,7 +28,7 @@ COMPONENTS = {
     'stub': ['user objective (harness world)', 'joblib (SimParallel)', 'time.time', 'uuid1'],
 }
 PROBES_EXPECTED = ['worst_batches', 'gradient_batches', 'second_or_later_batch', 'earlier_designs_rechecked', 'run_family',
-                   'resubmitted_design', 'parallel_batches', 'failed_parent_rerolled', 'integer_coordinates']
+                   'resubmitted_design', 'revisited_vector', 'parallel_batches', 'failed_parent_rerolled', 'integer_coordinates']
 
 
 class Oracle:
@@ -176,6 +176,12 @@ def _batch(D):
                     if all(p['bounds'][0] <= v <= p['bounds'][1] for v, p in zip(iv, w.params)):
                         ind.vector = iv
                         ctx.probe('integer_coordinates')
+            if orc.ever and D.dec('work', ('twinvec', b), 4) == 1:
+                # a new design with the vector of an earlier one (a re-visited point; a memoising objective hands out the
+                # same result list for it)
+                old = orc.ever[D.dec('work', ('twi', b), len(orc.ever))][0]
+                batch.append(Individual(list(old.vector)))
+                ctx.probe('revisited_vector')
             if kind == 'worst' and faulty:
                 # transient failures of *designs* (never of neighbour designs: a failed neighbour is re-rolled by Job and is
                 # then no neighbour any more - outside C14, like observation O2 for the gradient evaluator)
